@@ -140,7 +140,7 @@ def obligations(tier: str):
     add("tournament", "tournament_pop2_t2_infinite_fitness", M=2, t=2, wr=True, table="inf", timeout=200)
     add("tournament", "tournament_iterator_pop2_t2", M=2, t=2, wr=False, table=2, form="iterator")
     if T:
-        for t in (1, 2, 4):
+        for t in (1, 2):  # t = 4 over 3 individuals: 3^(4k) draw sequences per target count k - not exhaustible
             for wr in (True, False):
                 add("tournament", f"tournament_pop3_t{t}_{'repl' if wr else 'norepl'}", M=3, t=t, wr=wr, table=2)
     add("lexicase", "lexicase_1case", cases=1, M=3, K=2, table=3)
@@ -151,6 +151,6 @@ def obligations(tier: str):
     add("lexicase", "lexicase_epsilon_1case", cases=1, M=3, K=2, table=3, epsilon=True)
     add("lexicase", "lexicase_epsilon_2cases", cases=2, M=3, K=1 if not T else 2, table=2, epsilon=True, timeout=200)
     if T:
-        add("lexicase", "lexicase_3cases", cases=3, M=3, K=2, table=2)
-        add("lexicase", "lexicase_2cases_target3", cases=2, M=3, K=3, table=2)
+        add("lexicase", "lexicase_3cases", cases=3, M=2, K=2, table=2)
+        add("lexicase", "lexicase_2cases_target3", cases=2, M=2, K=3, table=2)
     return obs
